@@ -2,6 +2,7 @@
 parameters, constants, fields and call results by following reaching definitions backwards
 (DESIGN.md section 2.4).  Pure dataflow over MIR facts; nothing is evaluated except integer
 arithmetic on literal constants."""
+import re
 from .mir import CallSite
 
 MAX_DEPTH = 40
@@ -249,6 +250,14 @@ class Origins:
             if sz is not None:
                 return ("const", sz, "usize", None)
         callee, decl = cs.callee, cs.decl
+        # the length of a fixed-size buffer is a constant: `[0u8; 8].len()`, `0_i64.to_be_bytes().len()`
+        if last_seg(callee or "") == "len" and len(args) == 1:
+            n = _fixed_len(args[0])
+            if n is not None:
+                return ("const", n, "usize", None)
+        # `opt.unwrap_or(c)` is the same value as `match opt { Some(v) => v, None => c }` (const_unwrap_or!)
+        if last_seg(callee or "") == "unwrap_or" and len(args) == 2 and "ption" in (callee or ""):
+            return ("unwrap_or", args[0], args[1])
         # canonical callees: the free functions core::cmp::min / max are Ord::min / max
         seg = last_seg(callee or "")
         if seg in ("min", "max") and callee and ("cmp::min" in callee or "cmp::max" in callee) and len(args) == 2:
@@ -306,6 +315,32 @@ class Origins:
 
 
 CHECKED = {"checked_sub": "Sub", "checked_add": "Add", "checked_mul": "Mul", "checked_div": "Div"}
+
+
+_INT_BYTES = {"i8": 1, "u8": 1, "i16": 2, "u16": 2, "i32": 4, "u32": 4, "i64": 8, "u64": 8, "i128": 16, "u128": 16, "isize": 8, "usize": 8}
+
+
+def _fixed_len(ex):
+    e = ex
+    for _ in range(8):
+        if e[0] in ("ref", "deref", "mut"):
+            e = e[1]
+        elif e[0] == "cast":
+            e = e[2]
+        else:
+            break
+    if e[0] == "repeat":
+        try:
+            return int(str(e[2]).split("_")[0])
+        except ValueError:
+            return None
+    if e[0] == "agg" and e[1] == "array":
+        return len(e[4])
+    if e[0] == "call" and last_seg(e[1] or "") in ("to_be_bytes", "to_le_bytes", "to_ne_bytes"):
+        m = re.search(r"impl (\w+)>", e[1] or "")
+        if m and m.group(1) in _INT_BYTES:
+            return _INT_BYTES[m.group(1)]
+    return None
 
 
 def some_payload(opt):
